@@ -65,7 +65,7 @@ def prof_st():
 
 OPS = ["proc_start", "memo_ts_resize", "get_cell_interrupted",
        "resize", "resize_px", "swap_on", "swap_off", "q_on", "q_off", "q_on", "q_off", "get_nv", "get_colors", "on_kitty", "ratio_fixed", "ratio_dynamic", "ratio_float",
-       "ratio_bad", "get_cell", "get_cell", "get_ratio", "get_colors", "get_nv", "profile", "memo_cached", "memo_ts",
+       "ratio_bad", "get_cell", "get_cell", "get_ratio", "get_colors", "get_nv", "profile", "memo_cached", "memo_ts", "memo_ts_other",
        "inval_cached", "inval_ts", "on_kitty"]
 
 
@@ -105,9 +105,14 @@ READS = ["get_cell", "get_colors", "get_nv", "on_kitty", "get_ratio"]
 @st.composite
 def segment(draw):
     """Either one op, or one of the patterns the property is about."""
-    k = draw(st.integers(0, 10))
+    k = draw(st.integers(0, 11))
     if k <= 5:
         return [draw(op())]
+    if k == 11:  # size-memoized functions: compute at A -> resize to B -> compute -> back at A -> compute (two functions)
+        wa, wb = draw(win_st()), draw(win_st())
+        f1, f2 = draw(st.sampled_from([("memo_ts", "memo_ts_other"), ("memo_ts_other", "memo_ts"), ("memo_ts", "memo_ts")]))
+        return [{"op": "resize", "win": wa}, {"op": f1}, {"op": f2}, {"op": "resize", "win": wb}, {"op": f1}, {"op": f2},
+                {"op": "resize", "win": wa}, {"op": f2}, {"op": f1}]
     if k == 10:  # two memoized calls whose argument tuples are distinct but easily confused by a sloppy cache key
         a, b = draw(st.sampled_from(CONFUSABLE))
         return [{"op": "memo_cached", "args": a[0], "kw": a[1]}, {"op": "memo_cached", "args": b[0], "kw": b[1]}]
@@ -195,6 +200,14 @@ def check_history(c, rec):
         if resize_inside:  # the terminal is resized while the memoized body runs
             simtty.set_winsize(*resize_inside.pop())
         return v
+
+    # a second, unrelated function memoized per terminal size: has its own memo, sees every resize for itself
+    ts2 = {"n": 0, "last": None}
+
+    @U.terminal_size_cached
+    def memo_ts_other():
+        ts2["n"] += 1
+        return ("ts_other", tuple(U.get_terminal_size()), ts2["n"])
 
     def fresh_cell():
         return R.cell_size(prof, win, swap, {}, enabled)
@@ -426,6 +439,20 @@ def check_history(c, rec):
                 if counts["ts"] - before > 1:
                     fail("terminal_size_cached body ran more than once for one call", {"kind": "ts_rerun"})
                 ts_last = cur
+            elif k == "memo_ts_other":
+                before = ts2["n"]
+                v = memo_ts_other()
+                cur = (win[0], win[1])
+                if v[0] != "ts_other" or v[1] != cur:
+                    fail(f"a second terminal-size-memoized function returned {v}, the terminal is {cur}", {"kind": "ts_stale", "other": True})
+                if ts2["last"] == cur and ts2["n"] != before:
+                    fail("a second terminal_size_cached function re-ran its body although the terminal size did not change",
+                         {"kind": "ts_rerun", "other": True})
+                if ts2["last"] != cur and ts2["n"] != before + 1:
+                    fail(f"a second terminal_size_cached function ran its body {ts2['n'] - before}x after the terminal size changed "
+                         f"{ts2['last']} -> {cur}", {"kind": "ts_not_rerun", "other": True})
+                ts2["last"] = cur
+                flags.add("two_ts_functions")
             elif k == "memo_ts_resize":
                 # a resize lands while the body runs: the value belongs to the size before the call
                 memo_ts._invalidate_terminal_size_cache()
